@@ -20,4 +20,5 @@ CHECK = dict(
                  "one faulty member; payload alphabet {1,2} for the faulty member and one fixed payload per honest member; message ids {msg,msg2}"],
     budget_s={"quick": 100, "thorough": 1500},
     shards={"quick": 3, "thorough": 8},
+    gomaxprocs=5,
 )
